@@ -81,8 +81,13 @@ CATALOGUE = [
     V("verbose-recomputes", ["C12"], "break",
       [(G, "                if verbose:\n                    print(\"{:9d} {:20.4f} {:18.6f}\".format(i, self._chi2, -rel_diff))",
         "                if verbose:\n                    print(\"{:9d} {:20.4f} {:18.6f}\".format(i, self._chi2, -rel_diff))\n                    chi2_prev = self._chi2", 1)], "C12-T4"),
+    # chi2_prev initialised from the previous run is never read when max_iter >= 1 (it is overwritten before the first test): a twin
+    V("hidden-state-chi2-prev-unused-twin", ["C12"], "twin",
+      [(G, "        chi2_prev = -1.0", "        chi2_prev = self._chi2 if self._chi2 is not None else -1.0", 1)]),
+    # ... but it is hidden state as soon as the first iteration of a later call tests convergence against it
     V("hidden-state-chi2-prev", ["C12"], "break",
-      [(G, "        chi2_prev = -1.0", "        chi2_prev = self._chi2 if self._chi2 is not None else -1.0", 1)], "C12-T5"),
+      [(G, "        chi2_prev = -1.0", "        chi2_prev = self._chi2 if self._chi2 is not None else -1.0", 1),
+       (G, "            if i > 0:\n", "            if i > 0 or chi2_prev >= 0:\n", 1)], ["C12-T5", "optimize-semantics"]),
     V("num-iterations-off-by-one", ["C12"], "break", [(G, "                    ret.num_iterations = i\n", "                    ret.num_iterations = i + 1\n", 1)], "num_iterations"),
     V("solve-sign", ["C03", "C04"], "break", [(G, "dx = spsolve(self._hessian, -self._gradient)", "dx = spsolve(self._hessian, self._gradient)", 1)], "C03-d"),
     V("update-wrong-slice", ["C03"], "break",
